@@ -242,12 +242,82 @@ def extreme(ctx, stats, tally):
                 break
 
 
+DIV_CLASSES = ["dividend_all_ones", "dividend_all_ones_minus_1", "dividend_top_bit", "dividend_top_bit_plus_1",
+               "dividend_top_bit_minus_1", "dividend_random_top_bit_set", "dividend_ones_above_cut", "dividend_random_length",
+               "divisor_small_1_4096", "divisor_pow2", "divisor_pow2_minus_1", "divisor_pow2_plus_1", "divisor_run_of_ones",
+               "divisor_close_to_top", "divisor_random_length", "divisor_close_to_dividend"]
+
+
+def divsweep(ctx, stats, tally):
+    """Division sweep (harness/cmd/c09/divsweep.go): programs that divide at 16..64 bits, structured division
+    operands, the estimate hypothesis of C09_program_target_equiv_div evaluated on the real compiled programs."""
+    ops, out, meta = ctx.run_hx("divs", 0, seed=ctx.seed)
+    ctx.absorb_meta(meta, prefix="d_")
+    ctx.correspond("division sweep: meaning (ssaEval of the program form, Model/SsaDiv.lean) of every structured operand pair "
+                   "= outputs of the real GMW-target circuit; topo / pass / pair / sort ops of the sweep programs: Lean "
+                   "model = real code", ops, out, canon=strip_chk)
+    tally(ops, out, meta, "d%d" % ctx.seed)
+    c = ctx.coverage.get("counters", {})
+    ctx.coverage["division_sweep_programs"] = meta.get("div_programs")
+    want = 8 if ctx.tier == "quick" else 14
+    widths = [w for w in (16, 24, 32, 48, 64) if c.get("d_div_width_%d" % w)]
+    ctx.oblige("division sweep: %d programs compiled under {Yao, GMW} x {prune off, on}, the widths 16, 24, 32, 48, 64 all "
+               "present, no configuration left out of the simulation for its size" % c.get("d_div_programs", 0),
+               c.get("d_div_programs", 0) >= want and widths == [16, 24, 32, 48, 64] and not c.get("d_compile_fail_div") and
+               c.get("d_programs_div", 0) == c.get("d_div_programs", 0) and not c.get("d_config_skipped_too_big") and
+               not c.get("d_skipped_too_big_div") and
+               c.get("d_div_programs_structured", 0) == c.get("d_div_programs", 0) + c.get("d_programs_divgen", 0),
+               "programs=%s widths=%s compile_fail=%s ran=%s config_skipped_too_big=%s structured=%s" % (
+                   c.get("d_div_programs"), widths, c.get("d_compile_fail_div"), c.get("d_programs_div"),
+                   c.get("d_config_skipped_too_big"), c.get("d_div_programs_structured")))
+    ctx.oblige("division sweep: generated programs with division at widths that are not enumerated (statements, if / else, "
+               "loops, division results feeding other operators; %d compiled)" % c.get("d_programs_divgen", 0),
+               c.get("d_programs_divgen", 0) >= (1 if ctx.tier == "quick" else 6) and not c.get("d_skipped_too_big_divgen"),
+               "compiled=%s compile_fail=%s skipped=%s" % (c.get("d_programs_divgen"), c.get("d_compile_fail_divgen"),
+                                                         c.get("d_skipped_too_big_divgen")))
+    missing = [k for k in DIV_CLASSES if not c.get("d_div_class_" + k)]
+    ctx.oblige("structured division operands: every dividend / divisor class generated (%d operand pairs simulated on every "
+               "configuration of the sweep programs)" % c.get("d_div_vectors", 0),
+               not missing and c.get("d_div_vectors", 0) >= 100000, "missing classes: %s vectors=%s" % (missing, c.get("d_div_vectors")))
+    ev, hold = c.get("d_div_hypothesis_instances_evaluated", 0), c.get("d_div_hypothesis_instances_hold", 0)
+    ctx.coverage["estimate_hypothesis"] = {
+        "theorem": "Mpc.C09_program_target_equiv_div (hypothesis hest: EstOn goldEstimate on divInstancesOf)",
+        "divider_instances_evaluated": ev, "hold": hold, "meaning_vectors": c.get("d_div_meaning_vectors", 0),
+        "wrong_outputs_gmw": c.get("d_div_meaning_wrong_gmw", 0), "wrong_outputs_yao": c.get("d_div_meaning_wrong_base", 0)}
+    ctx.oblige("estimate hypothesis of C09_program_target_equiv_div (goldschmidt-estimate-within-one on the divider instances "
+               "of the run) evaluated on the real compiled GMW circuits for the structured operand classes: %d of %d divider "
+               "instances give the integer quotient / remainder (a wrong output refutes the hypothesis on that instance: "
+               "C09_div_wrong_output_refutes_estimate)" % (hold, ev),
+               ev >= 100000 and hold == ev and not c.get("d_div_meaning_wrong_base"),
+               "evaluated=%s hold=%s wrong_gmw_vectors=%s wrong_yao_vectors=%s (the first failing input of each program is an "
+               "oracle failure c09-div-estimate-not-within-one / c09-div-meaning)" % (
+                   ev, hold, c.get("d_div_meaning_wrong_gmw"), c.get("d_div_meaning_wrong_base")))
+    ctx.oblige("division sweep: `div` op lines (Lean meaning and divider instances vs the real GMW circuit) emitted for every "
+               "sweep program (%d ops, %d operand pairs)" % (c.get("d_div_ops", 0), c.get("d_div_op_vectors", 0)),
+               c.get("d_div_ops", 0) == c.get("d_div_programs", 0) > 0, "")
+    if ctx.widen:
+        # widened search: other seeds give other widths / forms / random operands
+        for s in range(ctx.seed + 11000, ctx.seed + 11002):
+            ops, out, meta = ctx.run_hx("divs", 0, seed=s, tag="-widen")
+            ctx.absorb_meta(meta, prefix="dwiden_")
+            if ctx.fails:
+                break
+
+
 def run(ctx):
     ctx.prove("MpcVerif.Props.C09", THEOREMS)
     # operator level of the threshold / target axes: corollaries of the C07 exactness theorems, every width and value
     ctx.prove("MpcVerif.Props.C09Builders", BUILDER_THEOREMS)
     # program level of the target axis: corollary of the C03 back-end theorem (both targets compute ssaEval)
-    ctx.prove("MpcVerif.Props.C09Programs", ["Mpc.C09_program_target_equiv", "Mpc.C09_program_both_targets_compute_meaning"])
+    # ... and for programs that DIVIDE: under the estimate hypothesis on the divider instances of the run
+    ctx.prove("MpcVerif.Props.C09Programs", ["Mpc.C09_program_target_equiv", "Mpc.C09_program_both_targets_compute_meaning",
+                                             "Mpc.C09_program_target_equiv_div_est", "Mpc.C09_program_target_equiv_div",
+                                             "Mpc.C09_program_div_both_targets_compute_meaning",
+                                             "Mpc.C09_div_wrong_output_refutes_estimate",
+                                             "Mpc.SsaC.goldschmidt_eq_dividerPad", "Mpc.SsaC.ssaCircuitEvalE_gold",
+                                             "Mpc.SsaC.EstOn_exact", "Mpc.SsaC.dividerPad_spec", "Mpc.SsaC.compileOpE_sound",
+                                             "Mpc.SsaC.compileStepsE_sound", "Mpc.SsaC.ssaCompileE_sound",
+                                             "Mpc.SsaC.ssaCircuitEvalE_correct"])
     if ctx.tier == "thorough":
         ctx.leanchecker("MpcVerif.Props.C09")
         ctx.leanchecker("MpcVerif.Props.C09Builders")
@@ -297,6 +367,8 @@ def run(ctx):
             ctx.correspond("pass models (ConstPropagate/ShortCircuitXORZero/Prune/Compile) + Compute/AssignLevels/level sorts: Lean model = real code (seed %d)" % s, ops, out,
                            canon=strip_chk)
             tally(ops, out, meta, s)
+        # the division sweep runs before the extreme shapes: its failures are concrete operand pairs
+        divsweep(ctx, stats, tally)
         extreme(ctx, stats, tally)
         c = ctx.coverage.get("counters", {})
         ctx.coverage["checker"] = stats
@@ -350,6 +422,14 @@ def run(ctx):
         "+ 8 staged compilations; distinct = distinct checker pair op lines whose two circuits differ in size; "
         "multiplier width sweep (6 per run, thorough 16: a*b, a*b+a and the full double-width product at seeded widths 9..72, two "
         "thirds odd - the Karatsuba split is uneven for odd widths - under every threshold and both targets); "
+        "DIVISION SWEEP (mode divs): a/b and a%b at 16, 24, 32, 48, 64 bits plus seeded programs (odd widths 17..63, signed, "
+        "mixed argument widths, forced non-zero divisor, results combined, constant divisor, a quotient divided again), "
+        "{Yao, GMW} x {prune off, on} with limits that keep the GMW divider circuits (up to 4*10^6 gates) in the simulation; "
+        "every non-enumerated program that divides is simulated on STRUCTURED division operands per argument pair: dividends "
+        "{2^w-1, 2^w-2, 2^(w-1), 2^(w-1)+-1, random with the top bit set, ones above a cut, random length} x divisors {every "
+        "value 1..4096, 2^k, 2^k+-1, runs of ones, 2^w-k, random of every length, values next to the dividend, its halves, "
+        "thirds and square root} (about 2*10^5 operand pairs per run in the quick tier), compared across configurations and, "
+        "for the sweep forms, against the integer quotient / remainder; "
         "EXTREME-SHAPE programs (seeded, calibrated against the compiler under test, dimensions measured on the compiled "
         "circuit): DEEP (dependent permutation chains on 1..3-bit values, compare-and-update loops on 16..64-bit values, one "
         "comparison of two ~22000-bit values: more than 2^16 levels under both targets; thorough: 2^17, ripple arithmetic on "
@@ -363,6 +443,13 @@ def run(ctx):
         "model is tied to circuit.Circuit.Compute on 3 sampled inputs per pair",
         "threshold and Yao-vs-GMW equivalence is TESTED by bit-parallel simulation (exhaustive for <= 16 input bits, else "
         "sampled), not proved; only raw/prune-off/prune-on pairs per target and threshold are proved per program",
+        "programs that divide, target axis: C09_program_target_equiv_div is CONDITIONAL on the estimate hypothesis "
+        "(goldschmidt-estimate-within-one, C07) on the divider instances of the run; the hypothesis is evaluated, not proved: "
+        "on the real compiled GMW circuits of the sweep programs for the structured operand classes (coverage.estimate_hypothesis) "
+        "- operand pairs outside those classes and widths above 64 bits are not evaluated; signed division (idiv / imod) is "
+        "outside the theorem (simulated and compared with its meaning only); the step lists of the sweep forms "
+        "(Model/SsaDiv.lean divForm) are this check's rendition of the programs' meaning, not the compiler's SSA dump "
+        "(C03 ties dumps)",
         "an output wire that no gate drives reads as 0 (Compute: make([]byte, NumWires)); modelled so in Lean "
         "(initStore) and in the checker (outAbs)",
         "circuits larger than the tier's size limits are skipped (counted in coverage.counters)",
@@ -398,6 +485,12 @@ def run(ctx):
         "for k = 1..12 and, with k = 16, on a real compiled program deeper than 2^16 levels). Every real compiled circuit, "
         "including those of the extreme-shape programs (deeper than 2^16 levels, wider than 2^16 gates, fan-out above 2^16), "
         "is checked single-assignment and topologically ordered by the proved checker absRun (`topo` ops) and by the harness. "
+        "Programs that divide: C09_program_target_equiv_div - the Yao and the GMW circuit of an SSA program with udiv / umod "
+        "agree on every input on which the program is defined IF the Goldschmidt quotient estimate is within one on the "
+        "divider instances (operand width, dividend, divisor) of that run; C09_div_wrong_output_refutes_estimate - a wrong GMW "
+        "output exhibits an instance on which the hypothesis is false.  The division sweep evaluates exactly that on the real "
+        "compiler's circuits: maximal / top-bit-set dividends x every small divisor and the other structured classes, at 16..64 "
+        "bits, Yao vs GMW vs the integer quotient / remainder vs the Lean meaning (`div` ops). "
         "Oracle: every configuration simulated against the "
         "base configuration (Yao, no prune, default threshold). Known finding (narrow): a division by ZERO gives "
         "different values under the two targets (Lean witness on uint2 a/0), matched only when the divisor probe shows a "
